@@ -197,6 +197,8 @@ pub fn target_strategy() -> impl Strategy<Value = String> {
         1 => "[ -~&&[^ ]]{1,40}",
         1 => proptest::collection::vec(prop::sample::select(vec!["/", "a", "%", "?", "#", ":", "@", ".", "é", "\\", "=", "&", "+", ";", "[", "]", "%00", "%2e"]), 1..30).prop_map(|v| v.concat()),
         1 => (1usize..12000).prop_map(|n| format!("/{}", "a".repeat(n))),
+        1 => long_text().prop_map(|b| format!("/{}", String::from_utf8_lossy(&b.0).replace(' ', "_"))),
+        1 => long_text().prop_map(|b| format!("/a.txt?q={}", String::from_utf8_lossy(&b.0).replace(' ', "+"))),
         1 => (1usize..3000).prop_map(|n| format!("/{}", "a/".repeat(n))),
         1 => (1usize..3000).prop_map(|n| format!("/a.txt?{}", "k=v&".repeat(n))),
     ]
@@ -207,7 +209,15 @@ fn hostile_text() -> impl Strategy<Value = Bytes> {
         2 => prop::sample::select(vec!["https://foo.example", "null", "*", "", " ", "a: b", "a,b", "http://x\ry", "http://x\ny", "x\r\nInjected: 1", "x\nInjected: 1", "x\rInjected: 1", "\0", "x\0y", ": ", ":", "\t", "é", "a\r\n\r\nHTTP/1.1 200 OK\r\n\r\n"]).prop_map(|s| Bytes(s.as_bytes().to_vec())),
         1 => proptest::collection::vec(any::<u8>(), 0..40).prop_map(|mut v| { v.retain(|b| *b != b'\n'); Bytes(v) }),
         1 => "[ -~]{0,60}".prop_map(|s| Bytes(s.into_bytes())),
+        // long values: a short ASCII prefix (so that multi-byte characters fall on every byte offset) + a unit repeated up to a length around the
+        // usual cut-off points (64 .. 8192 bytes) - single- and multi-byte characters, mixed
+        1 => long_text(),
     ]
+}
+
+pub fn long_text() -> impl Strategy<Value = Bytes> {
+    ("[a-z]{0,3}", prop::sample::select(vec!["a", "é", "中", "😀", "aé", "a 中", "%41", "é😀"]), prop::sample::select(vec![63usize, 64, 65, 127, 128, 129, 255, 256, 257, 300, 511, 512, 513, 1000, 1023, 1024, 1025, 2000, 4095, 4096, 4097, 8000]), 0usize..4)
+        .prop_map(|(pre, unit, len, extra)| { let mut v = pre.into_bytes(); while v.len() < len + extra { v.extend_from_slice(unit.as_bytes()); } Bytes(v) })
 }
 
 pub fn range_value() -> impl Strategy<Value = Bytes> {
@@ -324,6 +334,7 @@ pub fn mut_strategy() -> impl Strategy<Value = Mut> {
     let bytes = prop_oneof![
         3 => prop::sample::select(vec!["\r", "\n", "\r\n", "\0", " ", ":", ": ", "\u{ff}", "%", "\t", "--", "=", "&", "\r\n\r\n", "é"]).prop_map(|s| if s == "\u{ff}" { Bytes(vec![0xff]) } else { Bytes(s.as_bytes().to_vec()) }),
         1 => proptest::collection::vec(any::<u8>(), 1..6).prop_map(Bytes),
+        1 => long_text(),
     ];
     prop_oneof![
         3 => any::<u16>().prop_map(Mut::Truncate),
